@@ -160,7 +160,7 @@ func (h *hostPool) log(vs ...interface{}) {
 	h.trace = append(h.trace, "("+strings.Join(p, ",")+")")
 }
 
-var hostNames = []string{"probe", "probe2", "hvar", "hpair", "hpanic", "hnone", "hfix3", "hzero", "hid", "mkdur", "mkvals", "mkints", "mkptr", "hsend", "hcall0", "hcall1", "hcallr", "hcall2", "mkarr", "mkarrs"}
+var hostNames = []string{"probe", "probe2", "hvar", "hpair", "hpanic", "hnone", "hfix3", "hzero", "hid", "mkdur", "mkvals", "mkints", "mkptr", "hsend", "hcall0", "hcall1", "hcallr", "hcall2", "mkarr", "mkarrs", "hsum", "hjoin", "hfix2t"}
 
 func (h *hostPool) define(e *env.Env) {
 	e.Define("probe", func(x interface{}) interface{} { h.log(x); return x })
@@ -172,6 +172,10 @@ func (h *hostPool) define(e *env.Env) {
 	e.Define("hfix3", func(a, b, c interface{}) interface{} { h.log(a, b, c); return c })
 	e.Define("hzero", func() interface{} { h.log(); return int64(7) })
 	e.Define("hid", func(x interface{}) interface{} { return x })
+	// Go functions with typed parameters: a conversion can fail between two operands (directed programs only)
+	e.Define("hsum", func(prefix string, xs ...int64) int64 { var t int64; for _, x := range xs { t += x }; return t })
+	e.Define("hjoin", func(xs ...string) string { return strings.Join(xs, "") })
+	e.Define("hfix2t", func(a int64, b string, c int64) int64 { return a + c })
 	e.Define("hsend", func(c chan interface{}, v interface{}) { c <- v }) // a Go function to start with `go` (directed programs only)
 	// Go functions that call a script function back through func types without and with results (directed programs only)
 	e.Define("hcall0", func(f func()) { h.log("in0"); f(); h.log("out0") })
